@@ -52,6 +52,14 @@ def plan(tier):
             gen.append("vk_proof! {\n" + ATTR % (d + 5) + STUBS + "#[kani::stub(std::alloc::alloc, vk_alloc)]\n"
                        + "fn %s() { %s::<%d>(); }\n}\n" % (fn, call, d))
             p.add(MOD, H(fn, {"frame": "%s header only" % kind, "count": "%d symbolic decimal digits (first may be a sign)" % d}, "huge_count"))
+    # boundary counts: i64::MAX = 9223372036854775807, u64::MAX = 18446744073709551615
+    for kind, ty in ((("bulk", 36), ("array", 42)) if tier != "quick" else ()):
+        for bname, prefix in (("i64", "92233720368547758"), ("u64", "184467440737095516")):
+            fn = "c21_%s_count_boundary_%s" % (kind, bname)
+            gen.append("vk_proof! {\n" + ATTR % 30 + STUBS + "#[kani::stub(std::alloc::alloc, vk_alloc)]\n"
+                       + "fn %s() { count_boundary::<2>(%d, b\"%s\"); }\n}\n" % (fn, ty, prefix))
+            p.add(MOD, H(fn, {"frame": "%s header only" % kind, "count": "sign? + %s + 2 symbolic digits (around %s::MAX)" % (prefix, bname)},
+                         "count_boundary"))
     gen.append("vk_proof! {\n" + ATTR % 8 + "fn c21_nesting_limit() { nesting_limit(); }\n}\n")
     p.add(MOD, H("c21_nesting_limit", {"nesting": "at the declared limit, one below it, and propagation to an inner array"}, "nesting"))
     p.gen["c21_gen.rs"] = "".join(gen)
@@ -78,6 +86,6 @@ def plan(tier):
                                                                               2 if tier == "quick" else 3, 12 if tier == "quick" else 20))
     p.not_covered = ("longer frames; inline commands (quick tier: the tokenizer over symbolic characters does not finish in the budget); "
                      "arrays whose elements are not simple strings, nested arrays with symbolic content; real stack exhaustion")
-    p.per_harness_timeout = 400 if tier == "quick" else 1500
-    p.total_timeout = 1600 if tier == "quick" else 7000
+    p.per_harness_timeout = 900 if tier == 'quick' else 1500
+    p.total_timeout = 2700 if tier == 'quick' else 7000
     return p
